@@ -12,6 +12,13 @@
 //  eigenvalues, no convergence question is left): a wrong set there is a defect of the selection logic (sig wrong-set); a wrong set
 //  in the normal run whose full-space twin is right is a premature declaration of convergence (sig misconverged).
 //  The kernel-level requests for drv_c04 are produced by harness/c04k.cpp.
+//  Structured shares of the complex-shift family (fam 5, rep >= 100; all from the framework PRNG, replay by (seed, tier, fam, rule, rep), counters cfg_*):
+//    decoupled / block-diagonal matrices (1x1, 2x2 rotation-scaling, small dense blocks) whose WANTED eigenvectors vanish in the first nev coordinates
+//    (decoupled-away, -perm behind a permutation similarity that keeps every zero), control: supported inside (decoupled-inside); upper triangular / banded /
+//    block upper triangular / permuted matrices with exactly prescribed eigenvalues (multiples of 1/8) and sigma = (an exact eigenvalue) + i tau, or Re sigma =
+//    the real part of a 2x2 diagonal block (exact-resigma-*).  A returned value whose ACTED-ON value nu is right but whose lambda is not (the mirror image
+//    Re sigma + Im sigma^2 / (lambda - Re sigma) of the eigenvalue) is reported as `wrong-root` whatever the full-space twin does.
+//  History shares of the general families (fam 3..5, rep >= 200): init(); compute(ruleA); compute(ruleB) on ONE object, judged under ruleB (cfg history).
 #include "solver_common.h"
 #include <Eigen/LU>
 #include <Eigen/Eigenvalues>
@@ -117,6 +124,85 @@ static Mat spd(Rng& r, int n, double lo, double hi) { Vec b(n); for (int i = 0; 
 // symmetric A with  A x = lam B x  for the prescribed lam:  A = L (Q diag(lam) Q') L',  B = L L'
 static Mat pencil_from(Rng& r, const Vec& lam, const Mat& B) { Eigen::LLT<Mat> llt(B); Mat L = llt.matrixL(); Mat C = sym_from_spectrum(r, lam); Mat A = L * C * L.transpose(); return (0.5 * (A + A.transpose())).eval(); }
 
+// ---------------------------------------------------------------- structured complex-shift shares (fam 5, rep >= 100)
+static const char* SCFG[8] = {"decoupled-away", "decoupled-away-perm", "decoupled-inside", "exact-resigma-tri", "decoupled-away-dense", "exact-resigma-blocktri", "exact-resigma-perm", "exact-resigma-blockre"};
+static CL nu_cs(CL z, CL sg) { return (CL(1) / (z - sg) + CL(1) / (z - std::conj(sg))) * CL(0.5L); }
+static LD key_cs(int rule, CD z, CL sg) { CL a = nu_cs(CL(z.real(), z.imag()), sg); if (a.imag() < 0) a = std::conj(a); return key_of(rule, a, true); }
+// B(p[i], p[j]) = A(i, j): entries (and zeros) are moved, never recomputed; the coordinates in keep_off stay out of the first `nfirst` positions
+static void perm_similarity(Rng& r, Mat& A, const std::vector<int>& keep_off, int nfirst) {
+    const int n = (int) A.rows(); std::vector<int> p(n); for (int i = 0; i < n; i++) p[i] = i; for (int i = n - 1; i > 0; i--) std::swap(p[i], p[r.below(i + 1)]);
+    std::vector<char> off(n, 0); for (int i : keep_off) off[i] = 1;
+    for (int i = 0; i < n; i++) if (off[i] && p[i] < nfirst) { for (int j = 0; j < n; j++) if (!off[j] && p[j] >= nfirst) { std::swap(p[i], p[j]); break; } }
+    Mat B(n, n); for (int i = 0; i < n; i++) for (int j = 0; j < n; j++) B(p[i], p[j]) = A(i, j); A = B;
+}
+// units (one representative with Im >= 0 per real eigenvalue / conjugate pair) for exactly n eigenvalues whose keys under `rule` in the nu-spectrum are pairwise at least
+// 0.65 % of the (trimmed) candidate key range apart.  exact: candidates on the grid Re sigma + j/8, Im = k/8; forced: 1 = the real eigenvalue AT Re sigma (nu = 0),
+// 2 = a conjugate pair with real part Re sigma.  Candidates are accepted in random order.
+static bool struct_spectrum(Rng& r, int n, int rule, double sr, double si, bool exact, int forced, std::vector<CD>& units) {
+    const CL sg((LD) sr, (LD) si); const bool imagrule = (rule == 2 || rule == 6);
+    std::vector<CD> cand; const int NC = 16 * n;
+    for (int i = 0; i < NC; i++) {
+        CD z;
+        if (!exact) { const bool re = r.coin(0.25); z = re ? CD(4.0 * r.sym(), 0) : CD(4.0 * r.sym(), 0.3 + 3.0 * r.unit()); }
+        else { const bool re = r.coin(0.4); const int j = r.range(-32, 32), k = r.range(2, 24); z = re ? CD(sr + j / 8.0, 0) : CD(sr + j / 8.0, k / 8.0); if (re && j == 0) continue; }
+        if (std::abs(z - CD(sr, si)) < 0.3 && z.imag() != 0.0) continue;
+        if (imagrule && z.imag() == 0.0) continue;               // |Im nu| = 0 for every real lambda: at most one real eigenvalue (the forced one, or none)
+        cand.push_back(z);
+    }
+    if (cand.size() < (size_t) n) return false;
+    std::vector<LD> ck(cand.size()); for (size_t i = 0; i < cand.size(); i++) ck[i] = key_cs(rule, cand[i], sg);
+    std::vector<LD> so(ck); std::sort(so.begin(), so.end()); LD lo = so[so.size() / 20], hi = so[so.size() - 1 - so.size() / 20];
+    units.clear(); std::vector<LD> keys; int cnt = 0;
+    auto accept = [&](CD z, LD k) { units.push_back(z); keys.push_back(k); cnt += (z.imag() != 0.0) ? 2 : 1; };
+    if (forced == 1) { const CD z(sr, 0); const LD k = key_cs(rule, z, sg); lo = std::min(lo, k); hi = std::max(hi, k); accept(z, k); }
+    if (forced == 2) { double b = 0; for (int t = 0; t < 20; t++) { b = r.range(2, 24) / 8.0; if (std::fabs(b - si) >= 0.25) break; } if (std::fabs(b - si) < 0.25) return false;
+        const CD z(sr, b); const LD k = key_cs(rule, z, sg); lo = std::min(lo, k); hi = std::max(hi, k); accept(z, k); }
+    const LD delta = 0.0065L * (hi - lo); if (!(delta > 0)) return false;
+    for (size_t i = 0; i < cand.size() && cnt < n; i++) {
+        if (ck[i] < lo || ck[i] > hi) continue; const int w = (cand[i].imag() != 0.0) ? 2 : 1; if (cnt + w > n) continue;
+        bool ok = true; for (LD k : keys) if (std::fabs(k - ck[i]) < delta) { ok = false; break; } if (!ok) continue;
+        accept(cand[i], ck[i]);
+    }
+    return cnt == n;
+}
+static std::vector<CD> expand_units(const std::vector<CD>& u) { std::vector<CD> ev; for (const CD& z : u) { ev.push_back(z); if (z.imag() != 0.0) ev.push_back(std::conj(z)); } return ev; }
+// the units that hold one of the first nev + 1 eigenvalues in the rule's order (a pair is one unit)
+static std::vector<char> wanted_units(const std::vector<CD>& units, int rule, CL sg, int nev) {
+    std::vector<std::pair<LD, int>> ke; for (size_t u = 0; u < units.size(); u++) { const LD k = key_cs(rule, units[u], sg); ke.push_back({k, (int) u}); if (units[u].imag() != 0.0) ke.push_back({k, (int) u}); }
+    std::stable_sort(ke.begin(), ke.end(), [](const std::pair<LD, int>& a, const std::pair<LD, int>& b) { return a.first < b.first; });
+    std::vector<char> w(units.size(), 0); for (int i = 0; i < nev + 1 && i < (int) ke.size(); i++) w[ke[i].second] = 1; return w;
+}
+// block-diagonal matrix from the units: 1x1, 2x2 rotation-scaling [[a, b], [-b, a]], and (grouping > 0) dense blocks S D S^-1 over 2..3 consecutive units;
+// layout 0: blocks holding a wanted unit LAST (their eigenvectors vanish in the leading coordinates), 1: FIRST; perm: permutation similarity keeping the layout property
+static bool build_decoupled(Rng& r, const std::vector<CD>& units, const std::vector<char>& wanted, int nev, int layout, bool perm, double grouping, Mat& A, int& dW) {
+    struct Blk { Mat M; bool w; }; std::vector<Blk> blocks; const int U = (int) units.size();
+    for (int i = 0; i < U;) {
+        int g = 1; if (r.coin(grouping)) g = std::min(U - i, r.range(2, 3));
+        Blk b; b.w = false; std::vector<CD> sub; for (int t = 0; t < g; t++) { if (wanted[i + t]) b.w = true; sub.push_back(units[i + t]); }
+        if (g == 1) { const CD z = units[i]; if (z.imag() == 0.0) b.M = Mat::Constant(1, 1, z.real()); else { b.M = Mat(2, 2); b.M << z.real(), z.imag(), -z.imag(), z.real(); } }
+        else b.M = gen_from(r, expand_units(sub));
+        blocks.push_back(b); i += g;
+    }
+    for (int i = (int) blocks.size() - 1; i > 0; i--) std::swap(blocks[i], blocks[r.below(i + 1)]);
+    std::stable_partition(blocks.begin(), blocks.end(), [&](const Blk& b) { return layout == 0 ? !b.w : b.w; });
+    int n = 0; dW = 0; for (const Blk& b : blocks) { n += (int) b.M.rows(); if (b.w) dW += (int) b.M.rows(); }
+    if (n - dW < nev) return false;
+    A = Mat::Zero(n, n); std::vector<int> wc; int q = 0; for (const Blk& b : blocks) { const int d = (int) b.M.rows(); A.block(q, q, d, d) = b.M; if (b.w) for (int t = 0; t < d; t++) wc.push_back(q + t); q += d; }
+    if (perm) perm_similarity(r, A, layout == 0 ? wc : std::vector<int>(), layout == 0 ? nev : 0);
+    return true;
+}
+// (block) upper triangular matrix with the units on the diagonal in random order (exactly: 1x1 entries a, 2x2 blocks [[a, b], [-b, a]]); strictly upper part dense (g = 0.1) or banded (two superdiagonals, g = 0.3)
+static Mat build_blocktri(Rng& r, std::vector<CD> units, bool banded, bool perm) {
+    for (int i = (int) units.size() - 1; i > 0; i--) std::swap(units[i], units[r.below(i + 1)]);
+    int n = 0; for (const CD& z : units) n += (z.imag() != 0.0) ? 2 : 1;
+    Mat A = Mat::Zero(n, n); std::vector<char> bs(n, 0); int p = 0;
+    for (const CD& z : units) { if (z.imag() == 0.0) { A(p, p) = z.real(); p++; } else { A(p, p) = z.real(); A(p + 1, p + 1) = z.real(); A(p, p + 1) = z.imag(); A(p + 1, p) = -z.imag(); bs[p] = 1; p += 2; } }
+    const double g = banded ? 0.3 : 0.1;
+    for (int i = 0; i < n; i++) for (int j = i + 1; j < n; j++) { if (j == i + 1 && bs[i]) continue; if (banded && j - i > 2) continue; A(i, j) = g * r.sym(); }
+    if (perm) perm_similarity(r, A, std::vector<int>(), 0);
+    return A;
+}
+
 // ---------------------------------------------------------------- dense long-double references
 static std::vector<CL> ref_symL(const MatL& M) { Eigen::SelfAdjointEigenSolver<MatL> es(M, Eigen::EigenvaluesOnly); std::vector<CL> v; for (long i = 0; i < M.rows(); i++) v.push_back(CL(es.eigenvalues()[i], 0)); return v; }
 static std::vector<CL> ref_sym(const Mat& A) { MatL M = A.cast<LD>(); return ref_symL(M); }
@@ -133,17 +219,20 @@ static std::vector<CL> ref_pencil(const Mat& A, const Mat& B) { const long n = A
 static Mat inverse_ld(const Mat& A, double sigma) { MatL M = A.cast<LD>(); for (long i = 0; i < M.rows(); i++) M(i, i) -= (LD) sigma; MatL I = M.partialPivLu().inverse(); return I.cast<double>(); }
 
 // ---------------------------------------------------------------- the judgement
-struct CaseId { uint64_t seed; std::string tier; int fam, rule, rep; std::string famname; int n, nev, ncv; double sigma_r = 0, sigma_i = 0; bool full = false; };
+struct CaseId { uint64_t seed; std::string tier; int fam, rule, rep; std::string famname; int n, nev, ncv; double sigma_r = 0, sigma_i = 0; bool full = false; std::string cfg; };
 static std::string cj(const CaseId& c, const std::string& extra = "") {
     return "{\"harness\":\"c04\",\"part\":\"solver\",\"seed\":" + str(c.seed) + ",\"tier\":\"" + c.tier + "\",\"fam\":" + str(c.fam) + ",\"family\":\"" + c.famname + "\",\"rule\":" + str(c.rule) + ",\"rulename\":\"" + RN[c.rule] + "\",\"rep\":" + str(c.rep) +
-           ",\"n\":" + str(c.n) + ",\"nev\":" + str(c.nev) + ",\"ncv\":" + str(c.ncv) + ",\"sigma\":[" + str(c.sigma_r) + "," + str(c.sigma_i) + "],\"full\":" + (c.full ? "1" : "0") + extra + "}";
+           ",\"n\":" + str(c.n) + ",\"nev\":" + str(c.nev) + ",\"ncv\":" + str(c.ncv) + ",\"sigma\":[" + str(c.sigma_r) + "," + str(c.sigma_i) + "],\"full\":" + (c.full ? "1" : "0") + ",\"cfg\":\"" + c.cfg + "\"" + extra + "}";
 }
 static std::string cl_str(CL z) { std::ostringstream o; o.precision(17); o << "(" << (double) z.real() << "," << (double) z.imag() << ")"; return o.str(); }
 
 // lam_ref: eigenvalues of the user's problem (reference); fwd: lam -> the value the rule acts on; ret: eigenvalues returned by the solver.
 // cplx: complex rules (general family; values are compared up to conjugation, a conjugate pair is one unit).
 // returns 0 ok, 1 mismatch (description in `msg`), 2 precondition (spacing) not met on the reference
-static int judge(Out& out, const CaseId& c, const std::vector<CL>& lam_ref, const std::function<CL(CL)>& fwd, const std::vector<CL>& ret, bool cplx, LD sigma_abs, std::string& msg) {
+// mechanism keys of a mismatch: backmap = the returned set contains the wanted ACTED-ON value (nu matches) but the lambda handed back for it is not the eigenvalue
+// (the back-transformation / root selection is wrong, not the selection); nuzero = the wanted eigenvalue that is missing has acted-on value 0 (complex shift: it lies AT Re sigma)
+struct JudgeInfo { int backmap = 0, nuzero = 0; };
+static int judge(Out& out, const CaseId& c, const std::vector<CL>& lam_ref, const std::function<CL(CL)>& fwd, const std::vector<CL>& ret, bool cplx, LD sigma_abs, std::string& msg, JudgeInfo* ji = nullptr) {
     const int n = (int) lam_ref.size(); const int k = (int) ret.size();
     std::vector<CL> lam(lam_ref), act(n);
     for (int i = 0; i < n; i++) { act[i] = fwd(lam[i]); if (cplx && act[i].imag() < 0) { act[i] = std::conj(act[i]); lam[i] = std::conj(lam[i]); } }
@@ -163,7 +252,12 @@ static int judge(Out& out, const CaseId& c, const std::vector<CL>& lam_ref, cons
     for (int w : want) {
         int best = -1; LD bd = 0; for (int j = 0; j < k; j++) if (!used[j]) { LD d = std::abs(got[j] - act[w]); if (best < 0 || d < bd) { best = j; bd = d; } }
         const LD lscale = std::max(std::abs(lam[w]), sigma_abs);
-        if (best < 0 || !(bd <= TOL_SET * amax) || !(std::abs(gotl[best] - lam[w]) <= TOL_LAM * lscale + 1e-300L)) { miss = "wanted eigenvalue lambda=" + cl_str(lam[w]) + " (acted-on value " + cl_str(act[w]) + ") is not among the returned ones"; break; }
+        if (best < 0 || !(bd <= TOL_SET * amax) || !(std::abs(gotl[best] - lam[w]) <= TOL_LAM * lscale + 1e-300L)) {
+            const bool numatch = (best >= 0 && bd <= TOL_SET * amax);
+            if (ji) { ji->backmap = numatch ? 1 : 0; ji->nuzero = (c.fam == 5 && std::abs(act[w]) <= 1e-9L * amax) ? 1 : 0; }
+            miss = "wanted eigenvalue lambda=" + cl_str(lam[w]) + " (acted-on value " + cl_str(act[w]) + ") is not among the returned ones";
+            if (numatch) miss += ": its acted-on value IS there, but the lambda handed back for it is " + cl_str(gotl[best]) + " (wrong back-transformation / root)";
+            break; }
         used[best] = 1;
     }
     if (miss.empty()) return 0;
@@ -191,21 +285,24 @@ static bool conj_adjacent(const CVec& rv, long from) {
 }
 
 struct Ctx { Out* out; CaseId id; Obs* obs; };
+static int g_pre_rule = -1;               // history share: the rule of a first compute() on the same object (no init() in between); -1 = none
 // outcome of one solver run: 0 right set, 1 wrong set (msg), 2 spacing precondition not met, 3 not Successful, 4 exception, 5 not run
-struct Res { int st = 5; std::string msg, rj; };
-static Res finish_judge(Out& out, const CaseId& id, int j, const std::string& msg) { Res r; r.st = j; r.msg = msg; if (j == 0) { out.count(id.full ? "oracle_fullspace_checked" : "oracle_successful_checked"); out.count((id.full ? "okfull_" : "ok_") + id.famname); } return r; }
+struct Res { int st = 5; std::string msg, rj; JudgeInfo ji; };
+static Res finish_judge(Out& out, const CaseId& id, int j, const std::string& msg, const JudgeInfo& ji = JudgeInfo()) { Res r; r.st = j; r.msg = msg; r.ji = ji; if (j == 0) { out.count(id.full ? "oracle_fullspace_checked" : "oracle_successful_checked"); out.count((id.full ? "okfull_" : "ok_") + id.famname); } return r; }
 
 // run a HermEigsBase / GenEigsBase style solver with default start vector and default maxit/tol, judge when Successful
 template <class S> static Res run_krylov(Ctx& c, S& s, bool cplx, const std::vector<CL>& lam_ref, const std::function<CL(CL)>& fwd, LD sigma_abs, int sortrule) {
     Out& out = *c.out; const CaseId& id = c.id;
-    long hooks = 0; bool order_bad = false;
+    long hooks = 0; bool order_bad = false; bool judging = (g_pre_rule < 0);
     c.obs->f = [&](const char* tag, const void*) {
-        if (std::strcmp(tag, cplx ? "gen.restart" : "herm.restart")) return;
+        if (!judging || std::strcmp(tag, cplx ? "gen.restart" : "herm.restart")) return;
         hooks++; auto& rv = AX::ritz_val(s);
         if (!hook_order_ok(rv, id.rule, cplx)) order_bad = true;
     };
     long nconv = -1; std::string ex;
-    try { s.init(); nconv = (long) s.compute((SortRule) id.rule, 1000, 1e-10, (SortRule) sortrule); }
+    try { s.init();
+          if (g_pre_rule >= 0) { s.compute((SortRule) g_pre_rule, 1000, 1e-10, (SortRule) g_pre_rule); judging = true; }     // history share: compute(ruleA) first, no init() in between
+          nconv = (long) s.compute((SortRule) id.rule, 1000, 1e-10, (SortRule) sortrule); }
     catch (const std::exception& e) { ex = e.what(); }
     c.obs->f = nullptr;
     out.count(id.full ? "oracle_fullspace_runs" : "oracle_runs"); out.count("hooks_seen", hooks);
@@ -215,8 +312,8 @@ template <class S> static Res run_krylov(Ctx& c, S& s, bool cplx, const std::vec
     if (s.info() != CompInfo::Successful) { out.count(id.full ? "not_successful_fullspace" : "not_successful"); out.count((id.full ? "notconvfull_" : "notconv_") + id.famname + "_" + RN[id.rule]); res.st = 3; return res; }
     auto ev = s.eigenvalues(); std::vector<CL> ret; for (long i = 0; i < ev.size(); i++) ret.push_back(CL((LD) std::real(ev[i]), (LD) std::imag(ev[i])));
     if ((long) ret.size() != id.nev) { out.fail("count", id.famname + ": Successful but " + str(ret.size()) + " eigenvalues returned for nev = " + str(id.nev), cj(id, ",\"pred\":\"count\"")); res.st = 1; res.msg = "count"; return res; }
-    std::string msg; int j = judge(out, id, lam_ref, fwd, ret, cplx, sigma_abs, msg);
-    return finish_judge(out, id, j, msg);
+    std::string msg; JudgeInfo ji; int j = judge(out, id, lam_ref, fwd, ret, cplx, sigma_abs, msg, &ji);
+    return finish_judge(out, id, j, msg, ji);
 }
 
 struct CntSymProd : public Spectra::DenseSymMatProd<double> { CntSymProd(const Mat& A) : Spectra::DenseSymMatProd<double>(A) {} };
@@ -262,15 +359,25 @@ static Res one_case(Out& out, Obs& obs, uint64_t seed, const std::string& tier, 
     const bool genfam = (fam >= 3 && fam <= 5);
     int n = thorough ? (genfam ? sizes_gen[rep % 8] : sizes_sym[rep % 8]) : 30;
     if (fam == 5 && n > 50) n = 50;
+    // structured shares of the complex-shift family (rep 100..199) and history shares of the general families (rep >= 200)
+    const bool structured = (fam == 5 && rep >= 100 && rep < 200); const int skind = structured ? (rep - 100) % 8 : -1;
+    const bool history = (genfam && rep >= 200);
+    if (structured) { static const int sn[3] = {24, 30, 36}; n = thorough ? sn[((rep - 100) / 8) % 3] : 24; if ((rule == 2 || rule == 6) && (skind == 3 || skind == 5 || skind == 6)) n += 1; }
+    if (history) n = 30;
     if ((fam == 7 || fam == 13) && n > 100) n = 100;                      // iterative inner solves / sparse products: keep the cost bounded
     int nev = r.range(1, 6); if (fam == 13) nev = r.range(2, 6);
     int ncv = 2 * nev + 1 + r.range(0, 6); if (ncv > n) ncv = n;
     if (full) { ncv = n; with_model = false; }     // full-space run: the Krylov space is everything, the Ritz values are the eigenvalues, only the selection logic is left
     const int type = rep % 3;
     CaseId id{seed, tier, fam, rule, rep, FAM[fam], n, nev, ncv, 0, 0, full};
+    // history share: ruleA (first compute) is another rule of the family than the judged ruleB = rule
+    g_pre_rule = -1;
+    if (history) { int ri = 0; for (int i = 0; i < 6; i++) if (CPLX_RULES[i] == rule) ri = i; g_pre_rule = CPLX_RULES[(ri + 1 + (rep - 200) % 5) % 6]; id.cfg = std::string("history-") + RN[g_pre_rule] + "-then-" + RN[rule]; }
+    if (structured) id.cfg = SCFG[skind];
     { std::ofstream lc(out.dir + "/lastcase.txt"); lc << cj(id) << "\n"; }
-    if (!full) out.count(std::string("cases_") + FAM[fam]);
+    if (!full) { out.count(std::string("cases_") + FAM[fam]); if (structured) out.count("cfg_" + id.cfg); if (history) out.count("cfg_history"); }
     Ctx c{&out, id, &obs};
+    struct PreRuleReset { ~PreRuleReset() { g_pre_rule = -1; } } pre_rule_reset;
     const std::function<CL(CL)> ident = [](CL z) { return z; };
     switch (fam) {
     case 0: { Vec d = sym_spectrum(r, n, rule, type); Mat A = sym_from(r, d); OpLog log; LoopMatOp op(A, log); Spectra::SymEigsSolver<LoopMatOp> s(op, nev, ncv);
@@ -292,7 +399,21 @@ static Res one_case(Out& out, Obs& obs, uint64_t seed, const std::string& tier, 
               std::vector<CD> lam; for (auto& z : nu) lam.push_back(CD(sigma, 0) + CD(1, 0) / z);
               Mat A = gen_from(r, lam); Mat Inv = inverse_ld(A, sigma); c.id.sigma_r = sigma; OpLog log; LoopMatOp op(Inv, log); Spectra::GenEigsRealShiftSolver<LoopMatOp> s(op, nev, ncv, sigma);
               const LD sg = sigma; res = run_krylov(c, s, true, ref_gen(A), [sg](CL z) { return CL(1) / (z - sg); }, std::fabs(sg), rule); break; }
-    case 5: { // nu = (1/(lam - sigma) + 1/(lam - conj sigma)) / 2: eigenvalue of Re[(A - sigma I)^-1]; candidates picked greedily so that the keys are separated
+    case 5: if (structured) {
+              // decoupled kinds 0,1,2,4: generic sigma; exact kinds 3,5,6,7: Re sigma a multiple of 1/4, Im sigma = tau from the list
+              const bool exact = (skind == 3 || skind == 5 || skind == 6 || skind == 7); static const double TAUS[7] = {0.1, 0.25, 0.5, 0.7, 1.0, 1.5, 2.0};
+              const double sr = exact ? 0.25 * r.range(-6, 6) : 1.5 * r.sym(), si = exact ? TAUS[r.below(7)] : 0.4 + 1.2 * r.unit(); c.id.sigma_r = sr; c.id.sigma_i = si; const CL sg((LD) sr, (LD) si);
+              auto fwd = [sg](CL z) { return nu_cs(z, sg); };
+              std::vector<CD> units; bool ok = false; for (int att = 0; att < 20 && !ok; att++) ok = struct_spectrum(r, n, rule, sr, si, exact, exact ? (skind == 7 ? 2 : 1) : 0, units);
+              if (!ok) { out.count("generator_gave_up"); out.count("generator_gave_up_structured"); break; }
+              Mat A;
+              if (!exact) { std::vector<char> w = wanted_units(units, rule, sg, nev); int dW = 0; bool built = false;
+                  for (int att = 0; att < 3 && !built; att++) built = build_decoupled(r, units, w, nev, skind == 2 ? 1 : 0, skind == 1, att == 2 ? 0.0 : (skind == 4 ? 0.5 : 0.2), A, dW);
+                  if (!built) { out.count("generator_gave_up"); out.count("generator_gave_up_structured"); break; } }
+              else A = build_blocktri(r, units, skind == 5 && r.coin(), skind == 6);
+              CplxShiftOp op(A); Spectra::GenEigsComplexShiftSolver<CplxShiftOp> s(op, nev, ncv, sr, si);
+              res = run_krylov(c, s, true, ref_gen(A), fwd, std::abs(sg), rule); break; }
+            else { // nu = (1/(lam - sigma) + 1/(lam - conj sigma)) / 2: eigenvalue of Re[(A - sigma I)^-1]; candidates picked greedily so that the keys are separated
               const double sr = 1.5 * r.sym(), si = 0.4 + 1.2 * r.unit(); c.id.sigma_r = sr; c.id.sigma_i = si; const CL sg((LD) sr, (LD) si);
               auto fwd = [sg](CL z) { return (CL(1) / (z - sg) + CL(1) / (z - std::conj(sg))) * CL(0.5L); };
               std::vector<CD> ev; bool ok = false;
@@ -378,21 +499,28 @@ static void run_pair(Out& out, Obs& obs, uint64_t seed, const std::string& tier,
     try { a = one_case(out, obs, seed, tier, fam, rule, rep, with_model, false); } catch (const std::exception& e) { out.count("case_exception"); return; }
     long n = 0; { size_t p = a.rj.find("\"n\":"); if (p != std::string::npos) n = std::strtol(a.rj.c_str() + p + 4, nullptr, 10); }
     if (has_fullspace(fam, (int) n) || (a.st == 1 && (fam <= 10 || fam == 12))) { /* routinely for n <= 100; for larger n only to classify a wrong set */ try { b = one_case(out, obs, seed, tier, fam, rule, rep, false, true); } catch (const std::exception& e) { out.count("case_exception_fullspace"); } }
-    auto with_pred = [](const std::string& rj, const std::string& pred) { return rj.substr(0, rj.size() - 1) + ",\"pred\":\"" + pred + "\"}"; };
+    auto with_pred = [](const Res& q, const std::string& pred) { return q.rj.substr(0, q.rj.size() - 1) + ",\"pred\":\"" + pred + "\",\"nuzero\":" + str(q.ji.nuzero) + ",\"backmap\":" + str(q.ji.backmap) + "}"; };
+    // the acted-on value of a wanted eigenvalue was returned, but not the eigenvalue: a defect of the back-transformation (complex shift: of the root selection), whatever the twin does
+    if (b.st == 1 && b.ji.backmap) { out.fail("wrong-root", b.msg + " [full-space run, ncv = n]", with_pred(b, "back-transform-fullspace")); b.st = 6; }
+    if (a.st == 1 && a.ji.backmap) { out.fail("wrong-root", a.msg, with_pred(a, "back-transform")); a.st = 6; }
     // full-space run (ncv = n): no convergence question is left, a wrong set is a defect of the selection logic
-    if (b.st == 1) out.fail("wrong-set", b.msg + " [full-space run, ncv = n: the Ritz values are the eigenvalues]", with_pred(b.rj, "top-k-fullspace"));
+    if (b.st == 1) out.fail("wrong-set", b.msg + " [full-space run, ncv = n: the Ritz values are the eigenvalues]", with_pred(b, "top-k-fullspace"));
     if (a.st == 1) {
-        if (b.st == 0) out.fail("misconverged", a.msg + " [the same problem with ncv = n returns the right set: the selection logic is right, the iteration was declared converged before the wanted eigenvalue had emerged in the Krylov space]", with_pred(a.rj, "misconverged"));
-        else out.fail("wrong-set", a.msg, with_pred(a.rj, "top-k"));
+        if (b.st == 0) out.fail("misconverged", a.msg + " [the same problem with ncv = n returns the right set: the selection logic is right, the iteration was declared converged before the wanted eigenvalue had emerged in the Krylov space]", with_pred(a, "misconverged"));
+        else out.fail("wrong-set", a.msg, with_pred(a, "top-k"));
     }
 }
 static void part_solver(const Args& a, Out& out) {
     Obs obs; Spectra::verif::observer() = &obs;
     int reps = a.thorough() ? 24 : 6; if (const char* e = std::getenv("C04_REPS")) reps = std::atoi(e);
+    int sreps = a.thorough() ? 24 : 8, hreps = a.thorough() ? 5 : 2; if (const char* e = std::getenv("C04_SREPS")) sreps = std::atoi(e); if (const char* e = std::getenv("C04_HREPS")) hreps = std::atoi(e);
     for (int fam = 0; fam < 14; fam++) {
         const bool cplx = (fam >= 3 && fam <= 5);
         std::vector<int> rules; if (fam == 12) rules = {3}; else if (fam == 13) rules = {7}; else if (cplx) rules.assign(CPLX_RULES, CPLX_RULES + 6); else rules.assign(REAL_RULES, REAL_RULES + 5);
         for (int rule : rules) for (int rep = 0; rep < reps; rep++) run_pair(out, obs, a.seed, a.tier, fam, rule, rep, true);
+        // structured shares of the complex-shift family (8 kinds, see SCFG) and history shares init(); compute(ruleA); compute(ruleB) of the general families
+        if (fam == 5) for (int rule : rules) for (int rep = 100; rep < 100 + sreps; rep++) run_pair(out, obs, a.seed, a.tier, fam, rule, rep, false);
+        if (cplx) for (int rule : rules) for (int rep = 200; rep < 200 + hreps; rep++) run_pair(out, obs, a.seed, a.tier, fam, rule, rep, false);
     }
     // fixed probe (seed-independent): LOBPCG with a tolerance it cannot reach (tol_div_n = 1e-9, n = 100, exact-inverse preconditioner)
     { g_lob_tol = 1e-9; try { one_case(out, obs, 2, "thorough", 13, 7, 11, false, false); } catch (const std::exception&) { out.count("case_exception"); } g_lob_tol = 1e-7; out.count("lobpcg_strict_probe"); }
